@@ -288,3 +288,13 @@ _targets_before_observers = targets
 def targets():      # noqa: F811
     from . import purity
     return _targets_before_observers() + [purity.target_observers(["circuit/base", "circuit/series", "circuit/parallel", "circuit/circuit", "circuit/circuit_builder", "circuit/transmission_line_model"], "circuit observers keep no state"), purity.target_modules(["circuit/__init__", "circuit/parser", "circuit/tokenizer", "circuit/circuit_builder", "circuit/base", "circuit/series", "circuit/parallel", "circuit/circuit"], "circuit modules keep no state between calls")]
+
+
+_targets_before_folds = targets
+
+
+def targets():      # noqa: F811
+    """+ shared with C20: the series law for ANY number of children (pyvc.hoare: the loop over the children cut at the invariant
+    `result == partial sum`), with containers evaluated with their values and sub-circuits"""
+    from . import diagrams
+    return _targets_before_folds() + [diagrams.target_child_folds()]
